@@ -215,6 +215,11 @@ def cases(tier, seed, i, n):
         for outer in (['send_binary', b'o' * 300], ['send_text', 'outer ' * 40], ['send_binary', b'O' * 70000]):
             for inner in (['send_ping', b'inner'], ['send_text', 'inner'], ['close', 1000, 'inner'], ['send_pong', b'']):
                 yield dict(kind='nested', outer=outer, inner=inner)
+                # ... the nested call is made on ANOTHER, idle WebSocket of the process (a signal handler that closes /
+                # notifies a second connection): nothing of the first one concerns it
+                yield dict(kind='nested', outer=outer, inner=inner, two=True)
+                if outer[0] == 'send_text':
+                    yield dict(kind='nested', outer=outer, inner=inner, two=True, z=True)
                 # ... on a connection with permessage-deflate: the outer message is in the middle of its compressed send
                 yield dict(kind='nested', outer=outer, inner=inner, z=True)
                 if outer[0] == 'send_text':
@@ -335,8 +340,13 @@ def run_nested(case, acc):
     from .. import simnet
     outer, inner = case['outer'], case['inner']
     z = bool(case.get('z'))
-    w = H.World(H.hs_server([], dict(extra=[('Sec-WebSocket-Extensions', 'permessage-deflate')]) if z else None), split_send=True)
+    zhs = dict(extra=[('Sec-WebSocket-Extensions', 'permessage-deflate')]) if z else None
+    w = H.World(H.hs_server([], zhs), split_send=True)
     rec = {}
+    two = None
+    if case.get('two'):
+        w2 = H.World(H.hs_server([], zhs))
+        two = H.drive(w2, ws_kwargs=dict(compress=True) if z else None, connect_kwargs=dict(ping_rate=0), stop_after=3, companion=False)
 
     def policy(ws, ev, idx, run):
         if ev.name != 'poll' or rec:
@@ -348,7 +358,7 @@ def run_nested(case, acc):
                 return
             done.append(1)
             try:
-                rec['inner'] = H.app_call(run, ws, inner[0], *inner[1:])
+                rec['inner'] = H.app_call(run, ws if two is None else two.ws, inner[0], *inner[1:])
             except env.SelfDeadlock as e:
                 # with threading.Lock this call never returns: the thread waits for a lock it holds itself
                 rec['inner'] = dict(ok=False, exc=repr(e), exc_type=None, deadlock=True)
@@ -367,6 +377,26 @@ def run_nested(case, acc):
     detail = dict(outer=(rec['outer']['ok'], rec['outer']['exc']), inner=(rec['inner']['ok'], rec['inner']['exc']),
                   frames=[(f['opcode'], len(f['payload'])) for f in frames], residue=residue[:40], errors=errors)
     key = None
+    if two is not None:
+        acc.count2('oracle', 'nested_call_runs_on_another_object')
+        _r2, frames2, residue2, errors2 = H.client_frames(w2.conns[0])
+        detail['frames_on_the_other_connection'] = [(f['opcode'], len(f['payload'])) for f in frames2]
+        try:
+            with simnet.Installed(w2):
+                two.gen.close()
+        except Exception:   # noqa
+            pass
+        if not rec['inner']['ok']:
+            key = 'sendable-call-rejected:call-on-an-idle-websocket-made-while-this-thread-is-inside-a-write-on-another-one'
+        elif residue2 or errors2 or len(frames2) != 1:
+            key = 'not-exactly-one-frame:call-on-an-idle-websocket-made-while-this-thread-is-inside-a-write-on-another-one'
+        elif not rec['outer']['ok'] or residue or errors or len(frames) != 1:
+            key = 'not-exactly-one-frame:write-disturbed-by-a-call-on-another-websocket'
+        if key:
+            acc.violation(key, 'C03 %s: %s on websocket 2 inside the write of %s on websocket 1' % (key, inner[0], outer[0]), case, detail)
+        else:
+            acc.cls('nested-two/%s/%s/z%d' % (outer[0], inner[0], int(z)))
+        return
     if rec['inner'].get('deadlock'):
         key = 'would-hang:self-deadlock-on-lock:call-nested-in-a-compressed-send-of-the-same-thread'
     for r in (rec['outer'], rec['inner']):
